@@ -681,7 +681,7 @@ def run_c15(ctx, chk):
             gv = v.known if isinstance(v, StrV) else (eng.eval_bool(st, v) if isinstance(v, BoolV) else None)
             if gv != wv:
                 bad.append('[%s] rendition %s is %r (documented %r)' % (label, k, gv, wv))
-        if not all_rows_marked(eng, st, evs) or 'dirty' not in cleared:
+        if not all_rows_marked(eng, st, evs, ctx, sr) or 'dirty' not in cleared:
             bad.append('[%s] dirty set is not exactly all rows' % label)
         # tab stops: decided under C18 (same events)
     chk.instance('R-KILL', short(f), 'every field except savepoints/lines/columns is re-initialised', cnt > 0 and not [b for b in bad if 're-init' in b or 'cleared' in b or 'left alone' in b],
@@ -730,7 +730,7 @@ def run_c16(ctx, chk):
         m = get(eng, st, 'margins')
         if not (isinstance(m, EnumV) and m.tags == {0}):
             bad_m.append('[%s] margins %r' % (r.label, m))
-        if not all_rows_marked(eng, st, evs):
+        if not all_rows_marked(eng, st, evs, ctx, sr):
             bad_d.append(r.label)
         if eng.prove_cmp(st, 'eq', get(eng, st, 'lines'), ln) is not True or eng.prove_cmp(st, 'eq', get(eng, st, 'columns'), cn) is not True:
             bad_m.append('[%s] new geometry not installed' % r.label)
@@ -1005,6 +1005,8 @@ def run_c04(ctx, chk):
         ok_row = isinstance(row, NumV) and eng.prove_cmp(st, 'eq', row, cy) is True
         ok_col = isinstance(col, NumV) and (eng.prove_cmp(st, 'eq', col, cx) is True or eng.prove_cmp(st, 'eq', col, NumV(cx.sym, cx.k + 1, 'u32')) is True)
         ok_val = isinstance(v, StructV) and isinstance(pv, tuple) and pv[0] == 'literal' and pv[1] == 'screen::CharOpts::clone_with_data'
+        if not ok_val and isinstance(v, StructV) and isinstance(pv, tuple) and pv[:2] == ('derived', 'cursor.attr') and pv[2] <= {'data'}:
+            ok_val = True      # a clone of the cursor rendition in which only the text was replaced
         if not ok_val and isinstance(v, StructV):
             # any other construction is fine as long as every rendition field equals the cursor's
             cur = get(eng, st, 'cursor', 'attr')
